@@ -216,6 +216,37 @@ func genHistory(maxOps int, withCrash, allowTrick bool) func(t *rapid.T) Scenari
 				continue
 			}
 			op := genWrite(t, sc.Base, allowTrick)
+			if op.Kind == "state" {
+				// half of the state writes differ from the previous one in a single field only (a node
+				// re-records its state with a new DA height, time or result hash at an unchanged height)
+				var prev *StateSpec
+				for j := len(sc.Ops) - 1; j >= 0 && prev == nil; j-- {
+					if sc.Ops[j].Kind == "state" {
+						prev = sc.Ops[j].St
+					}
+				}
+				if prev != nil && rapid.Bool().Draw(t, "state-variation") {
+					v := *prev
+					fresh := op.St
+					switch rapid.IntRange(0, 6).Draw(t, "state-field") {
+					case 0:
+						v.DA = fresh.DA
+					case 1:
+						v.ZeroTime, v.Sec, v.Nsec = fresh.ZeroTime, fresh.Sec, fresh.Nsec
+					case 2:
+						v.Results = fresh.Results
+					case 3:
+						v.Chain = fresh.Chain
+					case 4:
+						v.VBlock, v.VApp = fresh.VBlock, fresh.VApp
+					case 5:
+						v.Initial = fresh.Initial
+					default:
+						v.AppHash = fresh.AppHash
+					}
+					op.St = &v
+				}
+			}
 			if withCrash && rapid.IntRange(0, 5).Draw(t, "crash") == 0 {
 				op.CrashK = rapid.IntRange(0, 4).Draw(t, "crashk")
 			}
